@@ -32,6 +32,12 @@ func runC10Parallel(ctx *Ctx, idx int, r *gen.R) Result {
 	for i := 0; i < nSnaps; i++ {
 		e.Snapshot(-1)
 	}
+	if idx%4 >= 2 {
+		// the original's handle is a REPLACEMENT taken after the snapshots (SetCollection on the
+		// existing name): it still shares the version - and must share its lock - with them
+		e.SetCollection("p", "")
+		ctx.Stats["c10.parallel-with-replaced-handle"]++
+	}
 	handles := []*gkvlite.Collection{e.H["p"]}
 	for _, sn := range e.Snaps {
 		handles = append(handles, sn.H["p"])
